@@ -640,14 +640,14 @@ theorem cli_den {o : Opt} {cur v : Val} {argv : List Occ} (ht : typedVal o.ty cu
 /-- `updateFromDict` touches option `k + n` with `updateOpt` of the `n`-th remaining option and nothing else -/
 theorem updateFrom_spec (T : Table) (argv : List Occ) : ∀ (os : List Opt) (k : Nat) (st st' : St),
     updateFrom T argv os k st = .ok st' →
-    ∀ (n : Nat) (o : Opt), os[n]? = some o → updateOpt o (st (k + n)) argv = .ok (st' (k + n)) := by
+    ∀ (n : Nat) (o : Opt), os[n]? = some o → updateOptD T o (st (k + n)) argv = .ok (st' (k + n)) := by
   intro os
   induction os with
   | nil => intro k st st' _ n o hn; simp at hn
   | cons o1 r ih =>
     intro k st st' h n o hn
     simp only [updateFrom, bind, Except.bind] at h
-    cases h1 : updateOpt o1 (st k) argv with
+    cases h1 : updateOptD T o1 (st k) argv with
     | error e => simp [h1] at h
     | ok v1 =>
       simp only [h1] at h
@@ -659,7 +659,7 @@ theorem updateFrom_spec (T : Table) (argv : List Occ) : ∀ (os : List Opt) (k :
         | cons o2 r2 ih2 =>
           intro k' s s' hh j hj
           simp only [updateFrom, bind, Except.bind] at hh
-          cases h2 : updateOpt o2 (s k') argv with
+          cases h2 : updateOptD T o2 (s k') argv with
           | error e => simp [h2] at hh
           | ok v2 =>
             simp only [h2] at hh
